@@ -179,7 +179,7 @@ var plans = map[string]Plan{
 			"a 4 minute ceiling per batch of 250 inputs (normal: seconds) stands in for 'terminates'",
 		},
 		Units: []Unit{
-			{Name: "inputs", Pkg: "./checks/c08", Run: "^TestInputs$", Rapid: true, Shards: [2]int{12, 16}, Checks: [2]int{300, 5000}},
+			{Name: "inputs", Pkg: "./checks/c08", Run: "^TestInputs$", Rapid: true, Shards: [2]int{12, 16}, Checks: [2]int{200, 4000}},
 			{Name: "structural-grid", Pkg: "./checks/c08", Run: "^TestStructuralGrid$", Shards: [2]int{1, 1}},
 		},
 	},
